@@ -334,6 +334,13 @@ def highlevel_display(ctx, model, cov):
             continue
         cases.append({"id": i, "pid": pid, "c0": c0, "c1": c1, "r0": r0, "r1": r1, "style": "sr", "fewer": rng.random() < 0.3, "arg": kind,
                       "given": {"ps_c": ps_c, "ps_r": ps_r, "pw": pw, "ph": phh, "sc": sc, "ec": ec, "er": er, "allow": allow}})
+    # the same call on terminals configured with tmux layers (the placeholder itself is never wrapped, but the terminal object
+    # is another one), small rectangles that are later rendered with their right edge exactly on the right margin
+    for k in range(ctx.pick(60, 400)):
+        w, hh = rng.choice([1, 2, 5, 28]), rng.choice([1, 2, 3])
+        c0, r0 = rng.choice([0, 0, 3]), rng.choice([0, 1])
+        cases.append({"id": rng.choice([7, 0x1234, 0x01000000, 0xFE00AB01]), "pid": 0, "c0": c0, "c1": c0 + w, "r0": r0, "r1": r0 + hh, "style": "sr",
+                      "fewer": rng.random() < 0.3, "arg": "int", "layers": k % 3, "margin": {"x0": rng.choice([0, 1, 12]), "y0": rng.choice([0, 3, 30])}})
     work = ctx.work
 
     def child():
@@ -341,16 +348,27 @@ def highlevel_display(ctx, model, cov):
         os.environ["HOME"] = work
         os.environ["XDG_STATE_HOME"] = os.path.join(work, "state")
         os.environ["XDG_CONFIG_HOME"] = os.path.join(work, "config")
+        bindir = os.path.join(work, "bin-c07")
+        os.makedirs(bindir, exist_ok=True)
+        with open(os.path.join(bindir, "tmux"), "w") as f:
+            f.write("#!/bin/sh\necho 'fake-term||||77||||88_sess'\n")
+        os.chmod(os.path.join(bindir, "tmux"), 0o755)
+        os.environ["PATH"] = bindir + ":" + os.environ.get("PATH", "")
         import tupimage
         disp = common.RecStream()
-        t = tupimage.TupimageTerminal(out_command=common.RecStream(), out_display=disp, in_response=open("/dev/tty", "rb", buffering=0),
-                                      id_database=os.path.join(work, "c07-hl.db"), config="DEFAULT")
+        tty_in = open("/dev/tty", "rb", buffering=0)
+        terms = {n: tupimage.TupimageTerminal(out_command=common.RecStream(), out_display=disp, in_response=tty_in,
+                                              id_database=os.path.join(work, f"c07-hl-{n}.db"), config="DEFAULT", num_tmux_layers=n, redetect_terminal=False)
+                 for n in (1, 2)}
+        terms[0] = tupimage.TupimageTerminal(out_command=common.RecStream(), out_display=disp, in_response=tty_in,
+                                             id_database=os.path.join(work, "c07-hl.db"), config="DEFAULT")
         out = []
         from tupimage.placeholder import ImagePlaceholder
         from tupimage.tupimage_terminal import ImageInstance
         import datetime as _dt
         for c in cases:
             disp.writes.clear()
+            t = terms[c.get("layers", 0)]
             try:
                 if c["arg"] == "int":
                     t.display_only(c["id"], start_col=c["c0"], start_row=c["r0"], end_col=c["c1"], end_row=c["r1"], fewer_diacritics=c["fewer"])
@@ -375,8 +393,27 @@ def highlevel_display(ctx, model, cov):
     for c, res in zip(cases, r["ok"]):
         if res[0] != "OK":
             ctx.violations.append({"signature": {"class": "legal-input-raises", "path": "display_only"}, "what": f"display_only raised {res[0]}: {res[1]}", "case": {"kind": "highlevel", "case": c}})
-    reps = model.batch([pc.render_request(scr["W"], scr["H"], 0, 0, False, data) for _, data in ok]) if ok else []
+    def screen_of(c):
+        if "margin" not in c:
+            return scr
+        m = c["margin"]
+        return {"W": m["x0"] + (c["c1"] - c["c0"]), "H": 40, "x0": m["x0"], "y0": m["y0"], "cur": [m["x0"], m["y0"]]}
+    reps = model.batch([pc.render_request(screen_of(c)["W"], screen_of(c)["H"], screen_of(c)["x0"], screen_of(c)["y0"], False, data) for c, data in ok]) if ok else []
     for (c, data), rep in zip(ok, reps):
+        if "margin" in c:
+            sc_ = screen_of(c)
+            h_ = c["r1"] - c["r0"]
+            cov.bump(f"highlevel/right-margin/layers={c['layers']}")
+            scrolls = False
+            exp = pc.expected_cells(c, sc_["W"], sc_["H"], sc_["x0"], sc_["y0"], scrolls=False)
+            d = pc.first_diff(exp, pc.parse_render(rep)["cells"])
+            if d is not None:
+                ctx.violations.append({"signature": {"class": "decode-mismatch", "style": "display_only", "scenario": "right edge on the right margin"},
+                                       "what": f"TupimageTerminal(num_tmux_layers={c['layers']}).display_only of a {c['c1'] - c['c0']}x{h_} rectangle printed at column {sc_['x0']}, row {sc_['y0']} of a "
+                                               f"{sc_['W']}x{sc_['H']} screen (right edge on the margin{', scrolling' if scrolls else ''}): cell (y,x)={d['cell_yx']} decodes to {d['decoded']}, "
+                                               f"the statement requires {d['expected']}",
+                                       "case": {"kind": "highlevel", "case": c}, "observed": d})
+            continue
         cov.add({"path": "display_only", "arg": c["arg"], "rect": [c["c0"], c["r0"], c["c1"], c["r1"]], "id": c["id"]},
                 klass=f"highlevel/{c['arg']}/cols={'>297' if c['c1'] > 297 else '<=297'}/rows={'=297' if c['r1'] == 297 else '<297'}")
         bad = oracle_check(c, scr, None, pc.parse_render(rep))
